@@ -51,7 +51,7 @@ PROPS = {
              'the three dynamic-field predicates of model.py are consistent; signed padding marker discipline in every '
              'consumer; optional-aware accessors in the runtime statics.',
              'numeric equality of sizes/alignments for all schemas; sizeof of raw structs',
-             'table agreement, finite predicate abstraction of guards, def-use dependency obligations, idiom recognition'),
+             'table agreement, finite predicate abstraction of guards, def-use dependency obligations, idiom recognition', claimed=True),
     'C05': P('C++ full: get_byte_size equals bytes written',
              'Signed padding marker never used in arithmetic unguarded in generate_struct_get_byte_size; size ladder and '
              'encode ladder partition the member domain identically with one size term per encode statement; limited '
